@@ -3,8 +3,10 @@ package main
 import (
 	"fmt"
 	"go/ast"
+	"go/parser"
 	"go/token"
 	"math/big"
+	"path/filepath"
 	"strconv"
 	"strings"
 )
@@ -19,6 +21,7 @@ import (
 //     ExecuteNativeAction closure, each with how its error is treated (checked / returned / blank / expr) and the
 //     provenance of every argument;
 //   - both dispatchers' step order is taken from Gen.C09.dispatchers.
+//
 // Anything the translator does not understand is emitted as an `unknown "<source>"` node: the interpreter answers
 // `unknown` for it, so the proof obligation (not the translator) breaks and the driver disagrees with the real app.
 func init() { register(extractC10) }
@@ -76,10 +79,10 @@ func selName(e ast.Expr) (string, string) {
 // CheckContractAddressIsDisabled
 
 type c10Dis struct {
-	c                    *ctxT
-	vars                 c10Vars
-	listP, addrP, methP  string
-	unknowns             int
+	c                   *ctxT
+	vars                c10Vars
+	listP, addrP, methP string
+	unknowns            int
 }
 
 func (d *c10Dis) unk(kind string, n ast.Node) string {
@@ -281,16 +284,16 @@ type c10Dec struct {
 }
 
 var c10BigConsts = map[string]string{
-	"abi.MaxUint256":  "115792089237316195423570985008687907853269984665640564039457584007913129639935",
-	"math.MaxBig256":  "115792089237316195423570985008687907853269984665640564039457584007913129639935",
-	"abi.MaxInt256":   "57896044618658097711785492504343953926634992332820282019728792003956564819967",
-	"common.Big0":     "0",
-	"common.Big1":     "1",
-	"common.Big2":     "2",
-	"common.Big3":     "3",
-	"common.Big32":    "32",
-	"common.Big256":   "256",
-	"common.Big257":   "257",
+	"abi.MaxUint256":      "115792089237316195423570985008687907853269984665640564039457584007913129639935",
+	"math.MaxBig256":      "115792089237316195423570985008687907853269984665640564039457584007913129639935",
+	"abi.MaxInt256":       "57896044618658097711785492504343953926634992332820282019728792003956564819967",
+	"common.Big0":         "0",
+	"common.Big1":         "1",
+	"common.Big2":         "2",
+	"common.Big3":         "3",
+	"common.Big32":        "32",
+	"common.Big256":       "256",
+	"common.Big257":       "257",
 	"math.BigPow(2, 256)": "115792089237316195423570985008687907853269984665640564039457584007913129639936",
 }
 
@@ -921,6 +924,183 @@ structure Closure where
 	}
 	sb.WriteString("/-- per state-changing method: the ctx-receiving calls inside its ExecuteNativeAction closure, in source order -/\ndef closures : List Closure := [\n" + strings.Join(clos, ",\n") + "\n]\n\n")
 	c.facts["C10.closures"] = cloFacts
+
+	// ---- handlerTransferShares: the statements that read, guard and rewrite the two delegations, in source order
+	var flow []string
+	if hfd := c.findFunc("x/staking/precompile", "TransferShare", "handlerTransferShares"); hfd != nil && hfd.Body != nil {
+		var hparams []string
+		for _, p := range hfd.Type.Params.List {
+			for _, n := range p.Names {
+				hparams = append(hparams, n.Name)
+			}
+		}
+		flow = append(flow, "("+leanStr("params")+", "+leanStr(strings.Join(hparams, ","))+")")
+		add := func(k, v string) { flow = append(flow, "("+leanStr(k)+", "+leanStr(v)+")") }
+		mutating := func(n ast.Node) bool {
+			found := false
+			ast.Inspect(n, func(x ast.Node) bool {
+				if ce, ok := x.(*ast.CallExpr); ok {
+					nm := calleeName(ce)
+					for _, pre := range []string{"Set", "Remove", "Delete", "Withdraw", "Increment", "decrement", "increment", "Send", "Mint", "Burn"} {
+						if strings.HasPrefix(nm, pre) {
+							found = true
+						}
+					}
+				}
+				return true
+			})
+			return found
+		}
+		var walk func(list []ast.Stmt, depth int)
+		walk = func(list []ast.Stmt, depth int) {
+			for _, st := range list {
+				switch v := st.(type) {
+				case *ast.AssignStmt:
+					if len(v.Rhs) == 1 {
+						if ce, ok := v.Rhs[0].(*ast.CallExpr); ok {
+							nm := calleeName(ce)
+							lhs := flat(c.src(v.Lhs[0]))
+							switch {
+							case nm == "GetDelegation" && len(ce.Args) == 3:
+								add("get", lhs+":"+flat(c.src(ce.Args[1]))+":"+flat(c.src(ce.Args[2])))
+							case nm == "NewDelegation" && len(ce.Args) == 3:
+								add("new", lhs+":"+flat(c.src(ce.Args[0]))+":"+flat(c.src(ce.Args[2])))
+							case nm == "LegacyNewDecFromBigInt" && len(ce.Args) == 1:
+								add("amount", lhs+":"+flat(c.src(ce.Args[0])))
+							case nm == "WithdrawDelegatorReward":
+								who := ""
+								ast.Inspect(ce, func(x ast.Node) bool {
+									if kv, ok := x.(*ast.KeyValueExpr); ok {
+										if k, ok := kv.Key.(*ast.Ident); ok && k.Name == "DelegatorAddress" {
+											who = flat(c.src(kv.Value))
+										}
+									}
+									return true
+								})
+								add("withdraw", who)
+							case nm == "Sub" || nm == "Add":
+								if se, ok := ce.Fun.(*ast.SelectorExpr); ok && len(ce.Args) == 1 {
+									recv := flat(c.src(se.X))
+									if strings.HasSuffix(lhs, ".Shares") && recv == lhs {
+										add(strings.ToLower(nm), strings.TrimSuffix(lhs, ".Shares")+":"+flat(c.src(ce.Args[0])))
+									}
+								}
+							}
+						}
+					}
+				case *ast.IfStmt:
+					cond := flat(c.src(v.Cond))
+					if v.Init != nil {
+						if as, ok := v.Init.(*ast.AssignStmt); ok && len(as.Rhs) == 1 {
+							if ce, ok := as.Rhs[0].(*ast.CallExpr); ok {
+								nm := calleeName(ce)
+								if (nm == "SetDelegation" || nm == "RemoveDelegation") && len(ce.Args) == 2 {
+									add(map[string]string{"SetDelegation": "set", "RemoveDelegation": "remove"}[nm], flat(c.src(ce.Args[1])))
+								}
+							}
+						}
+					}
+					endsInReturn := false
+					retNilErr := false
+					if n := len(v.Body.List); n > 0 {
+						if rs, ok := v.Body.List[n-1].(*ast.ReturnStmt); ok && len(rs.Results) > 0 {
+							endsInReturn = true
+							retNilErr = isNilIdent(rs.Results[len(rs.Results)-1])
+						}
+					}
+					switch {
+					case strings.Contains(cond, ".LT(") && endsInReturn && !retNilErr:
+						add("guard-lt", cond)
+					case strings.Contains(cond, "==") && !strings.Contains(cond, "nil") && endsInReturn && retNilErr:
+						if mutating(v.Body) {
+							add("early-return-mutating", cond)
+						} else {
+							add("early-return", cond)
+						}
+					}
+					walk(v.Body.List, depth+1)
+					if eb, ok := v.Else.(*ast.BlockStmt); ok {
+						walk(eb.List, depth+1)
+					}
+				}
+			}
+		}
+		walk(hfd.Body.List, 0)
+	}
+	sb.WriteString("/-- x/staking/precompile handlerTransferShares: the statements that read, guard and rewrite the two delegations, in source order -/\n")
+	sb.WriteString("def transferFlow : List (String × String) := " + leanList(flow) + "\n\n")
+
+	// ---- go-ethereum fork (dependency): how a precompile frame is built and who is debited for msg.value
+	var frameArgs []string
+	addrCopySrc, transferArgs := "", []string{}
+	var kindArgs []string
+	if gdir := c.depDir("github.com/ethereum/go-ethereum"); gdir != "" {
+		if f, err := parser.ParseFile(c.fset, filepath.Join(gdir, "core", "vm", "contracts.go"), nil, 0); err == nil {
+			for _, d := range f.Decls {
+				fd, ok := d.(*ast.FuncDecl)
+				if !ok || fd.Body == nil || fd.Name.Name != "runPrecompiledContract" {
+					continue
+				}
+				ast.Inspect(fd.Body, func(x ast.Node) bool {
+					switch v := x.(type) {
+					case *ast.AssignStmt:
+						if len(v.Lhs) == 1 && len(v.Rhs) == 1 {
+							if id, ok := v.Lhs[0].(*ast.Ident); ok && id.Name == "addrCopy" {
+								addrCopySrc = flat(c.src(v.Rhs[0]))
+							}
+						}
+					case *ast.CallExpr:
+						if calleeName(v) == "NewPrecompile" && frameArgs == nil {
+							for _, a := range v.Args {
+								frameArgs = append(frameArgs, flat(c.src(a)))
+							}
+						}
+					}
+					return true
+				})
+			}
+		}
+		if f, err := parser.ParseFile(c.fset, filepath.Join(gdir, "core", "vm", "evm.go"), nil, 0); err == nil {
+			byName := map[string][]string{}
+			for _, d := range f.Decls {
+				fd, ok := d.(*ast.FuncDecl)
+				if !ok || fd.Body == nil || recvName(fd) != "EVM" {
+					continue
+				}
+				switch fd.Name.Name {
+				case "Call", "CallCode", "DelegateCall", "StaticCall":
+				default:
+					continue
+				}
+				ast.Inspect(fd.Body, func(x ast.Node) bool {
+					ce, ok := x.(*ast.CallExpr)
+					if !ok {
+						return true
+					}
+					if calleeName(ce) == "RunPrecompiledContract" && byName[fd.Name.Name] == nil {
+						for _, a := range ce.Args {
+							byName[fd.Name.Name] = append(byName[fd.Name.Name], flat(c.src(a)))
+						}
+					}
+					if fd.Name.Name == "Call" && calleeName(ce) == "Transfer" && len(transferArgs) == 0 {
+						for _, a := range ce.Args {
+							transferArgs = append(transferArgs, flat(c.src(a)))
+						}
+					}
+					return true
+				})
+			}
+			for _, k := range []string{"Call", "CallCode", "DelegateCall", "StaticCall"} {
+				kindArgs = append(kindArgs, "("+leanStr(k)+", "+leanStrs(byName[k])+")")
+			}
+		}
+	}
+	sb.WriteString("/-- go-ethereum fork core/vm/evm.go: the arguments each call kind hands to RunPrecompiledContract -/\n")
+	sb.WriteString("def forkPrecompileArgs : List (String × List String) := " + leanList(kindArgs) + "\n")
+	sb.WriteString("/-- go-ethereum fork core/vm/contracts.go runPrecompiledContract: `addrCopy := …` and the arguments of NewPrecompile (caller, self, value, gas) -/\n")
+	sb.WriteString("def forkAddrCopy : String := " + leanStr(addrCopySrc) + "\ndef forkFrameArgs : List String := " + leanStrs(frameArgs) + "\n")
+	sb.WriteString("/-- go-ethereum fork EVM.Call: the arguments of the value Transfer -/\n")
+	sb.WriteString("def forkCallTransfer : List String := " + leanStrs(transferArgs) + "\n\n")
 
 	sb.WriteString("end FxVerif.Gen.C10\n")
 	c.write("C10.lean", sb.String())
